@@ -193,7 +193,10 @@ fn gen_ms(r: &mut Rng, maxlen: u64) -> Vec<Mapping> {
   for _ in 0..n {
     let k = r.below(6);
     if k == 0 { line = (line + 1 + (r.below(3) as u32)).min((1 << 30) - 1); col = 0; }
-    let v = |r: &mut Rng| if small { r.below(4) as u32 } else { r.pick(&VALS) };
+    else if k == 1 { line += 1; col = 0; }
+    // the panic criterion (C17) ranges over all of u32 ("wild" maps); the byte-level spec only over the C12 domain (< 2^30)
+    let wild = crit() == "panic";
+    let v = |r: &mut Rng| if small { r.below(4) as u32 } else if wild && r.below(3) == 0 { r.pick(&[u32::MAX, u32::MAX - 1, 1 << 31, (1 << 31) - 1, 1 << 30]) } else { r.pick(&VALS) };
     if r.below(3) != 0 { col = col.saturating_add(v(r) % 50).min((1 << 30) - 1); } else { col = v(r); }
     let original = match r.below(4) {
       0 => None,
